@@ -53,6 +53,10 @@ def gen(rng, i, tier):
     c['env']['bypos'] = bypos
     c['cls'] = CLASSES[(i // 3) % len(CLASSES)]
     c['queued'] = (i % 3 != 2)          # every third case: no queue (immediate, re-entrant processing)
+    if not c['queued'] and 'Hierarchical' in c['cls']:
+        # re-entrant state changes of the same model before the outer transition's state change: the hierarchical
+        # classes exit the state that is active NOW, Machine the declared source (KF-C09-1) - flat classes only here
+        c['cls'] = 'Machine'
     del c['init']
     return c
 
